@@ -35,7 +35,15 @@ INTF_NAMES = {0: "BRP_HID", 1: "BRP_SER", 2: "BRP_CCID", 3: "BRP_TCP", 4: "OSDP"
 
 
 def hexs(b, style=0):
+    """hex text of b; styles 0-3: upper/lower x plain/blank-separated; 4-7: further separators the BF2 grammar ignores (':' '-' '.' '/',
+    double blanks, tabs) and mixed case"""
     h = b.hex().upper() if style % 2 == 0 else b.hex()
+    if style >= 4:
+        sep = {4: ":", 5: "-", 6: "  ", 7: "\t"}[style % 8 if style % 8 >= 4 else 4]
+        h = sep.join(h[i: i + 2] for i in range(0, len(h), 2))
+        if style % 8 == 7:
+            h = "".join(c.lower() if i % 5 == 0 else c.upper() for i, c in enumerate(h))
+        return h
     if style >= 2:
         h = " ".join(h[i: i + 2] for i in range(0, len(h), 2))
     return h
@@ -99,7 +107,7 @@ def render(afile, style=0):
     def instr(i):
         kind, val = i
         if kind == "CHECK_FWVER":
-            L.append("#> CHECK_FWVER VERSIONDESC=" + ("*" if val == "*" else hexs(val, style % 2)))
+            L.append("#> CHECK_FWVER VERSIONDESC=" + ("*" if val == "*" else filter_spelling(val, 2 - style % 2 if afile.get("canonical_filters", False) else style + len(val) + len(L))))
         elif kind == "SELECT":
             L.append("#> SELECT FILTER=" + filter_spelling(val, 0 if afile.get("canonical_filters", False) else style * 3 + sum(val) + len(L)))
         elif kind == "SELECT_IF":
@@ -126,7 +134,7 @@ def render(afile, style=0):
                     L.append("")
                 if s.get("fe", False):
                     L.append(":" + hexs(ndx.to_bytes(2, "big") + b"\xFE\x00", style))
-            L.append(":" + hexs(raw_line(ndx, t, fwtag, trailer), style))
+            L.append(":" + hexs(raw_line(ndx, t, fwtag, trailer), style if (len(L) + style) % 4 else 4 + (len(L) // 4 + style) % 4))
             ndx = (ndx + 1) & 0xFFFF
         if not s.get("no_end_marker", False):
             L.append(":" + hexs(ndx.to_bytes(2, "big") + b"\xFF\x00", style))
